@@ -1,7 +1,7 @@
 (* C03/Properties.v — certificate chain verification accepts only chains anchored in the
    genesis key.  Model: C03/Model.v (the verifier after the fix commit that rejects a link to a
    following epoch); certificate and hash model: C04/Model.v. *)
-From MV Require Import Base.Prelude Base.Machine Base.SymHash Base.IdealSig Gen.Consts C04.Model C03.Model C03.Proofs.
+From MV Require Import Base.Prelude Base.Machine Base.SymHash Base.IdealSig Gen.Consts C04.Model C03.Model C03.Proofs C03.ProofsClient.
 Open Scope N_scope.
 
 (* Acceptance implies a finite chain of links (fewer than the fuel used) from the certificate to a
@@ -58,3 +58,52 @@ Proof. vm_compute. reflexivity. Qed.
 Example C03_ex_forward_link_rejected :
   verify_epoch_chaining (apply_mut ex_c (MEpoch 2)) (apply_mut ex_g (MEpoch 3)) = Err.
 Proof. vm_compute. reflexivity. Qed.
+
+(* ================= mithril-client: the client's own walk and its verifier cache ================= *)
+(* [cache_sound k]: every pair the cache remembers is a validated step ([step_ok]: the certificate
+   with that hash passed every check of verify_standard_certificate against a parent certificate
+   whose content matches the remembered previous hash).  It holds for the empty cache and is kept by
+   every call of verify_chain — accepted or rejected, whatever the provider serves: a failed
+   verification cannot poison the cache. *)
+Theorem C03_client_cache_empty : cache_sound [].
+Proof. exact cache_sound_nil. Qed.
+Theorem C03_client_cache_invariant : forall gvk prov fuel k h o k', cache_sound k ->
+  client_verify_chain fuel true gvk prov k h = (o, k') -> cache_sound k'.
+Proof. exact client_invariant. Qed.
+(* Acceptance by the client, with whatever the cache remembers from earlier calls against other
+   providers: the certificate served for the requested hash is [hanchored] — there are certificates,
+   each matching its hash, that form a chain of valid steps ([step_ok]: hash, signed message, epoch
+   in message, multi-signature under its own key and parameters, no self-loop, [link_ok]) from it to
+   a genesis certificate verifying under the configured key. *)
+Theorem C03_client_sound : forall gvk prov fuel k h k', cache_sound k ->
+  client_verify_chain fuel true gvk prov k h = (Accept, k') ->
+  exists c, prov h = Some c /\ hanchored gvk (hash c).
+Proof. exact client_sound. Qed.
+(* without a cache the client's two loops are exactly the common verifier's walk *)
+Theorem C03_client_no_cache : forall gvk prov fuel k h c, prov h = Some c ->
+  client_verify_chain fuel false gvk prov k h = (verify_chain fuel gvk prov c, k).
+Proof. exact client_nocache. Qed.
+
+(* ---- non-vacuity: a third certificate at epoch 3; the honest chain is accepted twice (the second
+   time through the cache); then an adversary's certificate (own key [9], valid multi-signature)
+   chained to the hash of the honest epoch-2 certificate, with that request answered by a copy of
+   the honest certificate that commits to key [9] under the honest hash field, is rejected — the
+   history that was accepted before the fix ---- *)
+Definition ex_c3 : cert :=
+  fin (mk_cert (BLit []) (hash ex_c) 3 ex_meta (ex_pm 3) (pm_hash (pmsg_of (ex_pm 3))) (BLit [7])
+         (MultiSig (CDb 3 1) (MSby 2 (BLit [7]) (fixp 5 100 (5854679515581645, -53)%Z) (pm_hash (pmsg_of (ex_pm 3)))))).
+Definition ex_forged : cert :=
+  fin (mk_cert (BLit []) (hash ex_c) 3 ex_meta (ex_pm 3) (pm_hash (pmsg_of (ex_pm 3))) (BLit [9])
+         (MultiSig (CDb 3 1) (MSby 3 (BLit [9]) (fixp 5 100 (5854679515581645, -53)%Z) (pm_hash (pmsg_of (ex_pm 3)))))).
+Definition ex_fake_parent : cert :=
+  apply_mut ex_c (MPm (pmsg_of [(3%nat, BHex (BLit [9])); (4%nat, pph 5 100 (5854679515581645, -53)%Z); (5%nat, BLit (dec 2))])).
+Definition ex_honest_tbl := [(hash ex_g, ex_g); (hash ex_c, ex_c); (hash ex_c3, ex_c3)].
+Definition ex_forged_tbl := [(hash ex_g, ex_g); (hash ex_c, ex_fake_parent); (hash ex_forged, ex_forged)].
+Example C03_ex_client_history :
+  run_client true 42 [CRun ex_honest_tbl (hash ex_c3); CRun ex_honest_tbl (hash ex_c3);
+                      CRun ex_forged_tbl (hash ex_forged)]
+  = OL [OZ 0%Z; OZ 0%Z; OZ 1%Z].
+Proof. vm_compute. reflexivity. Qed.
+(* the forged certificate passes every check against the served parent: only the parent's own hash tells *)
+Example C03_ex_forged_step_passes : verify_standard ex_forged ex_fake_parent = Ok tt /\ verify_hash ex_fake_parent = Err.
+Proof. vm_compute. split; reflexivity. Qed.
